@@ -38,6 +38,7 @@ type LimitCfg struct {
 	VInc         string `json:"v_inc,omitempty"`
 	VDec         string `json:"v_dec,omitempty"`
 	Windowed     bool   `json:"windowed,omitempty"`
+	Listener     bool   `json:"listener,omitempty"`      // a (no-op) change listener is registered on the outermost limit before anything else happens, as a strategy hook or a wrapper would
 	WithRegistry bool   `json:"with_registry,omitempty"` // built over a recording metric registry (where the test does not supply one of its own)
 	Traced       bool   `json:"traced,omitempty"`
 	TraceDebug   bool   `json:"trace_debug,omitempty"` // traced: the logger handed to the traced limit has debug output enabled (it discards the text)
@@ -293,6 +294,9 @@ func buildLimit(c LimitCfg, reg core.MetricRegistry) built {
 	b, err := tryBuildLimit(c, reg)
 	if err != nil {
 		panic(err)
+	}
+	if c.Listener {
+		b.Outer.NotifyOnChange(func(int) {})
 	}
 	return b
 }
